@@ -53,6 +53,9 @@ class NearestBetterClustering:
         self.use_correction = use_correction
 
     def cluster(self) -> list[Individual]:
+        if not self.individuals:
+            # The truncation kept nothing (population size x truncation factor < 1).
+            return []
         self._prepare_spanning_tree()
         return [node.data["individual"] for node in self._find_root_nodes()]
 
